@@ -212,8 +212,12 @@ def okBoundsInferred (chain : List Member) (b : Option (Nat × Nat)) : Bool :=
     | some (s, e) => isMin s (chain.map (·.start)) && isMax e (chain.map (·.stop))
     | none => false
 
-/-- `genes`, `fcs` as passed to the constructor; `bnd` = the explicit (start, end) arguments -/
-def okAcoll (genes fcs : List Member) (bnd : Option Nat × Option Nat) (ans : Option AcollAns) : Bool :=
+/-- `genes`, `fcs` as passed to the constructor; `bnd` = the explicit (start, end) arguments; `pb` = the location
+    (start, end) of the chromosome-typed ancestor of `parent_or_seq_chunk_parent`, when there is one.
+    Documented: explicit bounds (both or neither) win; else the bounds are inferred from the parent if possible;
+    else from the members; an empty collection without either has no bounds. -/
+def okAcollP (pb : Option (Nat × Nat)) (genes fcs : List Member) (bnd : Option Nat × Option Nat)
+    (ans : Option AcollAns) : Bool :=
   let chain := genes ++ fcs
   match bnd with
   | (some _, none) => ans.isNone                       -- documented: both or neither
@@ -226,6 +230,35 @@ def okAcoll (genes fcs : List Member) (bnd : Option Nat × Option Nat) (ans : Op
   | (none, none) =>
     match ans with
     | none => false
-    | some a => okCommon chain a && okBoundsInferred chain a.bounds
+    | some a =>
+      okCommon chain a &&
+      (match pb with
+       | some b => a.bounds == some b
+       | none => okBoundsInferred chain a.bounds)
+
+/-- without a parent -/
+def okAcoll (genes fcs : List Member) (bnd : Option Nat × Option Nat) (ans : Option AcollAns) : Bool :=
+  okAcollP none genes fcs bnd ans
+
+/-! ### accessors of the primary member -/
+
+/-- what the accessors of a gene return, for member methods `seq` (spliced sequence), `cdsSeq`, `prot` given as
+    arbitrary functions of the member: (primary transcript index, primary feature index, CDS, sequence, feature
+    sequence, CDS sequence, protein) -/
+structure AccAns (α : Type) where
+  transcript : Option Nat
+  feature : Option Nat
+  cds : Option (List Blk)
+  seq : Option α
+  featureSeq : Option α
+  cdsSeq : Option α
+  protein : Option α
+
+/-- every accessor returns the value of member `p`; the CDS-dependent ones are `None` for a non-coding member -/
+def okAccessors {α : Type} [DecidableEq α] (seq cdsSeq prot : Child → α) (c : Child) (p : Nat) (a : AccAns α) : Bool :=
+  a.transcript == some p && a.feature == some p && a.cds == c.cds &&
+  a.seq == some (seq c) && a.featureSeq == some (seq c) &&
+  a.cdsSeq == some (cdsSeq c) &&
+  a.protein == (if c.coding then some (prot c) else none)
 
 end BioCantor.Spec.Agg
